@@ -260,6 +260,9 @@ def production_cases(rep, tier):
             variants = []
             if any(t.isdigit() and t != '0' for t in toks):
                 variants.append(('zero', ' '.join('0' if t.isdigit() else t for t in toks)))
+            if len(toks) > 2:
+                # the same sentence written over several indented lines: layout is not part of the tree, and verbatim (raw query) parts must reach a fixed point
+                variants.append(('layout', ''.join(t + ('\n   ' if i % 2 else ' ') for i, t in enumerate(toks)).strip()))
             for tag, sql2 in variants:
                 n += 1
                 try:
@@ -269,7 +272,7 @@ def production_cases(rep, tier):
                 if r2:
                     cid = f'C01.prod.{dname}.{p.name}:{" ".join(p.prod)}'[:140] + f'.{tag}'
                     if not any(b.id == cid for b in rep.bounded):
-                        rep.add_bounded(Bounded(cid, False, sql2, r2, 'same tree and string', bound='one shortest sentence per production, integer literals set to 0'))
+                        rep.add_bounded(Bounded(cid, False, sql2, r2, 'same tree and string', bound='one shortest sentence per production; variants: integer literals set to 0, tokens spread over indented lines'))
         for sql in corpus.test_strings():
             n += 1
             try:
@@ -282,7 +285,7 @@ def production_cases(rep, tier):
                     rep.add_bounded(Bounded(cid, False, sql, r, 'same tree and string', bound='test-suite statements'))
     rep.bounded_evals = n
     rep.bounded_rule = ('one shortest sentence per grammar production (from the real grammar) and every SQL string constant of /repo/tests, x 3 dialects: parse, print, '
-                        're-parse; to_tree() and string must be equal, also for copy(); a failing production / statement is its own case')
+                        're-parse; to_tree() and string must be equal, also for copy(); variants of each sentence: integer literals 0, tokens spread over several indented lines; a failing production / statement is its own case')
 
 
 def check(rep, tier):
